@@ -428,6 +428,15 @@ pub fn run(ctx: &Ctx) -> Report {
         }
     }
     par_items(ctx, "C08", &work, |&(e, kind, ww), rep| {
+        // one copy of more than 2^32 bits per (endianness, word combination, path), between sparse streams
+        if ctx.tier != Tier::Tiny && kind == RKind::Buf64 {
+            let combo = WWord::ALL.iter().position(|x| *x == ww).unwrap();
+            if combo < 4 && (ctx.tier == Tier::Thorough || combo < 2) {
+                for path in [0u8, 1] {
+                    super::huge::check_copy(e, combo, (1u64 << 32) + 77 + (ctx.seed % 50), path, rep);
+                }
+            }
+        }
         let rw = kind.word_bits();
         let rwb = rw / 8;
         let mut rng = Rng::derive(ctx.seed, crate::report::hash_of(&(0xC08u64, e, kind, ww)));
@@ -504,7 +513,7 @@ pub fn run(ctx: &Ctx) -> Report {
         }
         // copies that end exactly at the end of a strict source (every bit is there: must succeed), and
         // copies that overshoot it by less / more than a word (must fail without fabricating bits)
-        if ctx.tier != Tier::Tiny || ww == WWord::U64 {
+        if ctx.tier != Tier::Tiny {
             for (si, prefix) in states.iter().enumerate() {
                 let p0 = pos_after(prefix);
                 let base = (p0.div_ceil(rw)).max(if kind.buffered() { 2 } else { 1 });
@@ -576,6 +585,9 @@ pub fn run(ctx: &Ctx) -> Report {
 }
 
 pub fn replay(case: &str, rep: &mut Report) {
+    if case.starts_with("huge=") {
+        return super::huge::replay(case, rep);
+    }
     if case.starts_with("overshoot=") {
         let kv = Kv::parse(case);
         let ww = *WWord::ALL.iter().find(|w| w.name() == kv.get("ww")).unwrap();
